@@ -40,6 +40,9 @@ def run(repo: Repo, tier: str, res: CheckResult, seed: int = 0) -> None:
     sibling_pairs(repo, R, res)
     scalar_pairs(repo, R, res)
     literal_rule(repo, res)
+    from .c11 import caches_not_carried_over
+    caches_not_carried_over(repo, res, prop="C07", rule="NARROW.loaders-shared-across-coercion-modes",
+                            consequence="a retort derived with replace(strict_coercion=True) from a used lax retort answers with the LAX loaders (accepts '10' for int), and a lax clone used first makes the strict original lax")
     res.assumptions = list(ASSUMPTIONS)
 
 
@@ -257,6 +260,25 @@ def _lax_constructor(m: ModuleInfo, lax: ast.FunctionDef, strict_fn: ast.Functio
             v = n.value
         elif isinstance(n, ast.Assign) and len(n.targets) == 1 and isinstance(n.targets[0], ast.Name) and n.targets[0].id in returned:
             v = n.value
+        # the constructed value post-processed before it is handed out: `C(d).method(...)`, `f(C(d))`
+        if isinstance(v, ast.Call) and not (len(v.args) == 1 and not v.keywords and norm(v.args[0]) == d):
+            inner = [c for c in ast.walk(v) if c is not v and isinstance(c, ast.Call) and len(c.args) == 1 and not c.keywords
+                     and norm(c.args[0]) == d]
+            if len(inner) == 1:
+                # the strict loader: does it hand out the same post-processed form?
+                wrapped = norm(v).replace(norm(inner[0]), "CONSTRUCTED")
+                sd_ = func_params(strict_fn)[0]
+                strict_forms = {norm(r.value).replace(norm(inner[0]).replace(d, sd_), "CONSTRUCTED")
+                                for r in ast.walk(strict_fn) if isinstance(r, ast.Return) and r.value is not None}
+                res.evaluated(f"scalar:lax-postprocess:{lax.name}", True)
+                if wrapped not in strict_forms:
+                    res.add(Finding("C07", "SCALAR.lax-transforms-result", m.rel, lax.name, norm(v)[:100],
+                                    f"the lax loader of {target} hands out `{norm(v)[:80]}` -- the constructed value after a further "
+                                    f"transformation -- while the strict loader `{strict_fn.name}` hands out the value itself: a datum both "
+                                    "modes accept loads to DIFFERENT values (lax is no longer strict plus extra accepted inputs)",
+                                    v.lineno))
+                ctors.add(norm(inner[0].func))
+                continue
         if isinstance(v, ast.Call) and len(v.args) == 1 and not v.keywords and norm(v.args[0]) == d:
             ctors.add(norm(v.func))
             if isinstance(n, ast.Assign):
